@@ -97,12 +97,122 @@ def buffer_width(body, op):
     return None
 
 
+def _const_of(body, op):
+    v = const_int(op)
+    if v is not None:
+        return v
+    for lf in body.origins(op, passthrough={}):
+        if lf["kind"] == "const" and "bits" in lf["k"]:
+            return int(lf["k"]["bits"])
+    return None
+
+
+def assembled_pieces(body, tb, op):
+    """A record assembled in a zeroed stack array and written with one write_all:
+         let mut raw = [0u8; N]; raw[a..b].copy_from_slice(&x); raw[i] = y; out.write_all(&raw)
+    -> [(width, rendered term)] covering 0..N in order (untouched ranges are zero bytes), or None when `op` is not such a buffer
+    or is modified in any other way."""
+    arr = None
+    cur = op_place(op)
+    for _ in range(10):
+        if cur is None or cur["p"]:
+            return None
+        ty = body.local_ty(cur["l"])
+        if re.match(r"^\[u8; \d+\]$", ty):
+            arr = cur["l"]
+            break
+        ds = [d for d in body.defs(cur["l"]) if not d[4]]
+        if len(ds) != 1 or ds[0][2] != "assign":
+            return None
+        rv = ds[0][3]["rv"]
+        if rv["r"] in ("use", "cast") and op_place(rv["o"]) is not None:
+            cur = op_place(rv["o"])
+        elif rv["r"] == "ref" and [proj_key(p) for p in rv["p"]["p"]] in ([], ["*"]):
+            cur = {"l": rv["p"]["l"], "p": []}
+        else:
+            return None
+    if arr is None or 1 <= arr <= body.argc:
+        return None
+    whole = [d for d in body.defs(arr) if not d[4]]
+    if len(whole) != 1 or whole[0][2] != "assign" or whole[0][3]["rv"]["r"] != "repeat" or const_int(whole[0][3]["rv"]["o"]) != 0:
+        return None
+    try:
+        n = int(str(whole[0][3]["rv"]["n"]).split("_")[0])
+    except ValueError:
+        return None
+    pieces = []
+    touched = 0
+    for (c, _i) in body.mut_borrow_calls(arr):
+        if not re.search(r"ops::IndexMut::index_mut$", c.decl):
+            return None
+        touched += 1
+        lo, hi = None, None
+        for lf in body.origins(c.args[1], passthrough={}):
+            if lf["kind"] == "agg":
+                rv = lf["stmt"]["rv"]
+                adt = rv.get("adt", "")
+                vals = dict(zip(rv.get("fields", []), rv["ops"]))
+                if adt.endswith("ops::Range"):
+                    lo, hi = _const_of(body, vals["start"]), _const_of(body, vals["end"])
+                elif adt.endswith("ops::RangeTo"):
+                    lo, hi = 0, _const_of(body, vals["end"])
+                elif adt.endswith("ops::RangeFrom"):
+                    lo, hi = _const_of(body, vals["start"]), n
+                elif adt.endswith("ops::RangeFull"):
+                    lo, hi = 0, n
+            elif lf["kind"] == "const" and "RangeFull" in lf["k"].get("ty", ""):
+                lo, hi = 0, n
+        if lo is None or hi is None or not (0 <= lo < hi <= n):
+            return None
+        users = [body.call_at(u[0]) for u in body.uses(c.dest["l"]) if isinstance(u[2], tuple)] if c.dest and not c.dest["p"] else []
+        # the sub-slice may be reborrowed before it reaches copy_from_slice
+        cfs = [x for x in body.calls() if re.search(r"<impl \[T\]>::(copy_from_slice|clone_from_slice)$", x.decl) and
+               any(l2["kind"] == "call" and l2["call"] is c for l2 in body.origins(x.args[0], passthrough={}))]
+        if len(cfs) != 1:
+            return None
+        pieces.append((lo, hi, render(tb.term(cfs[0].args[1]))))
+    # direct element stores raw[i] = v
+    for (bb, idx, kind, payload, lhs_proj) in body.defs(arr):
+        if kind != "assign" or not lhs_proj:
+            continue
+        pr = payload["lhs"]["p"]
+        if len(pr) != 1 or not isinstance(pr[0], dict):
+            return None
+        if "i" in pr[0]:
+            i = _const_of(body, {"c": {"l": pr[0]["i"], "p": []}})
+        elif "ci" in pr[0] and not pr[0].get("fe"):
+            i = pr[0]["ci"]
+        else:
+            return None
+        if i is None or payload["rv"]["r"] != "use":
+            return None
+        pieces.append((i, i + 1, render(tb.term(payload["rv"]["o"]))))
+    pieces.sort()
+    out = []
+    pos = 0
+    for (lo, hi, t) in pieces:
+        if lo < pos:
+            return None         # overlapping stores: order-dependent, not handled
+        if lo > pos:
+            out.append((lo - pos, str(("repeat", ("const", "0_u8"), str(lo - pos)))))
+        out.append((hi - lo, t))
+        pos = hi
+    if pos < n:
+        out.append((n - pos, str(("repeat", ("const", "0_u8"), str(n - pos)))))
+    return out if pieces else None
+
+
 def emission(body, facts=None):
     """[(width|'var', term, Call)] for write_all calls, in dominance order."""
     tb = TermBuilder(body)
     out = []
     for c in body.calls():
         if c.decl != "std::io::Write::write_all":
+            continue
+        asm = assembled_pieces(body, tb, c.args[1])
+        if asm is not None:
+            for (w_, t_) in asm:
+                out.append((w_, t_, c))
             continue
         w = buffer_width(body, c.args[1])
         t = render(tb.term(c.args[1]))
